@@ -133,6 +133,19 @@ class SymArray(np.ndarray):
     """what Tensor.numpy() returns for float tensors (object ndarray; .real/.imag elementwise)"""
 
 
+def _r32(x):
+    """single-precision storage rounds concrete values (symbolic entries are exact reals)"""
+    if type(x) is Fraction or isinstance(x, Fraction):
+        if x.denominator == 1 and _pyabs(x.numerator) < 16777216:
+            return x
+        return Fraction(_pyfloat(np.float32(_pyfloat(x))))
+    return x
+
+
+def _round32(arr):
+    return _map1(_r32, arr)
+
+
 def _lift_arr(x):
     a = np.asarray(x, dtype=object) if not isinstance(x, np.ndarray) else x
     out = np.empty(a.shape, dtype=object)
@@ -215,6 +228,8 @@ class Tensor:
                 data = data.a
             self.a = _lift_arr(np.asarray(data))
             dtype = _default_dtype
+            if dtype is float32:
+                self.a = _round32(self.a)
         self.dtype = dtype
         self.device = _CPU
         self.grad = None
@@ -314,9 +329,10 @@ class Tensor:
 
     def _cast(self, dt):
         if dt.kind == "f":
-            if self.dtype.kind == "f":
-                return Tensor(_raw=self.a.copy(), dtype=dt)
-            return Tensor(_raw=_lift_arr(self.a), dtype=dt)
+            arr = self.a.copy() if self.dtype.kind == "f" else _lift_arr(self.a)
+            if dt is float32:
+                arr = _round32(arr)
+            return Tensor(_raw=arr, dtype=dt)
         flat = self.a.reshape(-1)
         if dt.kind == "i":
             vals = np.asarray([_toint(x) for x in flat], dtype=np.int64).reshape(self.a.shape)
@@ -506,8 +522,10 @@ class Tensor:
             rd = self.dtype if self.dtype.kind == "i" else odt
             if a.dtype == np.bool_:
                 a = a.astype(np.int64)
-        r = f(ob, a) if reverse else f(a, ob)
-        return Tensor(_raw=_arr(r), dtype=rd)
+        r = _arr(f(ob, a) if reverse else f(a, ob))
+        if rd is float32:
+            r = _round32(r)
+        return Tensor(_raw=r, dtype=rd)
 
     def __add__(self, o):
         return self._bin(o, np.add)
@@ -562,7 +580,7 @@ class Tensor:
     def _inplace(self, r):
         if r.dtype.kind == "f" and self.dtype.kind != "f":
             raise RuntimeError("result type Float can't be cast to the desired output type Long")
-        self.a[...] = r.a
+        self.a[...] = _round32(r.a) if self.dtype is float32 and r.a.dtype == object else r.a
         self._version += 1
         return self
 
@@ -703,6 +721,34 @@ class Tensor:
 
     def sin(self):
         return self._fmap(lambda x: S.fn("sin", x))
+
+    def atan(self):
+        return atan(self)
+
+    def exp_(self):
+        return self._inplace(self.exp())
+
+    def log_(self):
+        return self._inplace(self.log())
+
+    def cos_(self):
+        return self._inplace(self.cos())
+
+    def sin_(self):
+        return self._inplace(self.sin())
+
+    def roll(self, shifts, dims=None):
+        return roll(self, shifts, dims)
+
+    def max(self, dim=None):
+        if dim is not None:
+            raise UnsupportedOp("max over a dimension")
+        return _reduce_minmax(self, True)
+
+    def min(self, dim=None):
+        if dim is not None:
+            raise UnsupportedOp("min over a dimension")
+        return _reduce_minmax(self, False)
 
     def logsumexp(self, dim, keepdim=False):
         return self.exp().sum(dim, keepdim).log()
@@ -1038,6 +1084,60 @@ def atan2(y, x):
     return Tensor(_raw=_map2(lambda p, q: S.fn("atan2", p, q), _fa(y), _fa(x)), dtype=y.dtype)
 
 
+def atan(x):
+    # atan(t) == atan2(t, 1) exactly
+    return Tensor(_raw=_map1(lambda p: S.fn("atan2", p, Fraction(1)), _fa(x)), dtype=x.dtype)
+
+
+def _mm2(p, q, want_max):
+    if isinstance(p, S.Sym) or isinstance(q, S.Sym):
+        # max(p,q) = (p + q + |p - q|) / 2 ; min with a minus sign
+        d = S.fn("abs", S.sub(p, q))
+        return S.mul(Fraction(1, 2), S.add(S.add(p, q), d if want_max else S.neg(d)))
+    return (p if p >= q else q) if want_max else (p if p <= q else q)
+
+
+def _reduce_minmax(x, want_max):
+    flat = _fa(x).reshape(-1)
+    if flat.size == 0:
+        raise RuntimeError("max(): expected a non-empty tensor")
+    r = flat[0]
+    for v in flat[1:]:
+        r = _mm2(r, v, want_max)
+    return Tensor(_raw=_arr(r), dtype=x.dtype)
+
+
+def max(x, other=None):  # noqa: A001
+    if other is None:
+        return x.max()
+    return Tensor(_raw=_map2(lambda p, q: _mm2(p, q, True), _fa(x), _fa(other)), dtype=x.dtype)
+
+
+def min(x, other=None):  # noqa: A001
+    if other is None:
+        return x.min()
+    return Tensor(_raw=_map2(lambda p, q: _mm2(p, q, False), _fa(x), _fa(other)), dtype=x.dtype)
+
+
+maximum = max
+minimum = min
+
+
+def where(cond, a, b):
+    c = cond.a if isinstance(cond, Tensor) else np.asarray(cond)
+    if c.dtype == object:
+        c = np.frompyfunc(_tobool, 1, 1)(c).astype(np.bool_)
+    aa = a.a if isinstance(a, Tensor) else S.lift(a)
+    bb = b.a if isinstance(b, Tensor) else S.lift(b)
+    dt = a.dtype if isinstance(a, Tensor) else (b.dtype if isinstance(b, Tensor) else double)
+    if dt.kind == "f":
+        if isinstance(aa, np.ndarray) and aa.dtype != object:
+            aa = _lift_arr(aa)
+        if isinstance(bb, np.ndarray) and bb.dtype != object:
+            bb = _lift_arr(bb)
+    return Tensor(_raw=_arr(np.where(c.astype(np.bool_), aa, bb)), dtype=dt)
+
+
 def einsum(eq, *ts):
     if len(ts) == 1 and isinstance(ts[0], (list, tuple)):
         ts = tuple(ts[0])
@@ -1128,6 +1228,7 @@ def diagonal(x, offset=0, dim1=0, dim2=1):
 
 
 def roll(x, shifts, dims=None):
+    # like torch: without dims the tensor is flattened, rolled and restored to its shape
     return x._new(np.roll(x.a, shifts, axis=dims))
 
 
